@@ -113,3 +113,21 @@ func (c *Cache) VerifEvict(name string) bool {
 
 // VerifEvictQueueLen returns the number of entries waiting for eviction.
 func (c *Cache) VerifEvictQueueLen() int { return c.unsubQueue.Len() }
+
+// VerifQueueState returns, per cache entry, the lengths of its task queue and of its unlock list
+// and the capacity of the unlock list (-1 when no query-event lock is active).
+func (c *Cache) VerifQueueState() map[string][3]int {
+	c.mu.Lock()
+	defer c.mu.Unlock()
+	out := make(map[string][3]int, len(c.eventSubs))
+	for name, e := range c.eventSubs {
+		e.mu.Lock()
+		lc := -1
+		if e.locks != nil {
+			lc = cap(e.locks)
+		}
+		out[name] = [3]int{len(e.queue), len(e.locks), lc}
+		e.mu.Unlock()
+	}
+	return out
+}
